@@ -271,6 +271,8 @@ def b_configs(job):
         body = G.guarded_history(g, rng)
     elif job.get("mode") == "eqsys":
         body = G.eqsys_history(g, rng)
+    elif job.get("mode") == "tower":
+        body = G.tower_history(g, rng)
     elif job.get("mode") == "cnf":
         # clause sets over few, closely related atoms (small constants: equal and opposite bounds, zero-weight cycles)
         body = cnf_history(g, rng, n_atoms=job.get("n_atoms", 7), levels=job.get("levels", 4))
@@ -294,7 +296,8 @@ def b_configs(job):
         # check affordable; every other configuration gets the full bound
         to = min(job.get("timeout", 20), 6) if cfg == "la" else job.get("timeout", 20)
         fam.add_run("s", cfg, "cfg", G.preamble(g, _opts(cfg)) + body, timeout=to)
-    return _result(fam, job)
+    # towers are huge as trees: the kernel does not evaluate them, the family is judged on returning and on agreement
+    return _result(fam, job, mon=job.get("mode") != "tower")
 
 BUILDERS = {"answers": b_answers, "models": b_models, "incremental": b_incremental, "configs": b_configs}
 
